@@ -1133,3 +1133,51 @@ M("c03-f19-reintroduced", ["C03", "C11"], ["C03.nonrtc", "C11.who"],
 
 M("c12-f20-reintroduced", ["C12"], ["C12.dedup"],
   E(DISP, '        yield f"{spec.attr_name}@{id(spec.func)}", partial(callable_method, spec.func)', '        yield f"{spec.attr_name}@None", partial(callable_method, spec.func)'), note="F20")
+
+# ----------------------------------------------------------------------------------------- second-round strengthening (mirrors of seeded misses + metaclass dispatch)
+M("c13-send-calls-given-object", ["C13"], ["C13.send"],
+  E(SM, """        if event in self.__class__._events:
+            event_instance: BoundEvent = getattr(self, event)""", """        if isinstance(event, BoundEvent):
+            event_instance: BoundEvent = event
+        elif event in self.__class__._events:
+            event_instance = getattr(self, event)"""))
+M("c15-event-attribute-loses-display-name", ["C15"], ["C15.events"],
+  E(FAC, """                        name=value.name,
+                    ),
+                    old_event=value,""", """                        name=key,
+                    ),
+                    old_event=value,"""), note="Event(name='Loop') declared explicitly gets the attribute name as display name")
+M("c15-wiring-only-first-registration", ["C15"], ["C15.events"],
+  E(FAC, """        transitions = event._transitions
+        if transitions is not None:
+            transitions._on_event_defined(event=event, states=list(cls.states))
+
+        if event not in cls._events:
+            cls._events[event] = None
+            setattr(cls, event.id, event)
+""", """        if event not in cls._events:
+            transitions = event._transitions
+            if transitions is not None:
+                transitions._on_event_defined(event=event, states=list(cls.states))
+            cls._events[event] = None
+            setattr(cls, event.id, event)
+"""))
+M("c16-instance-writes-class-attribute", ["C16"], ["C16.defwrite"],
+  E(SM, """        self._register_callbacks(listeners or [])
+""", """        type(self)._last_listeners = listeners
+        self._register_callbacks(listeners or [])
+"""))
+M("c18-event-label-cached", ["C18"], ["C18.edge"],
+  E(TR, "        return str(self._events)", "        return self._event_names"),
+  E(TR, "        self._events = Events().add(event)\n", "        self._events = Events().add(event)\n        self._event_names = str(self._events)\n"),
+  E(TR, "        self._events.add(value)\n", "        self._events.add(value)\n        self._event_names = str(self._events)\n"))
+M("c14-unwrap-result-or-none", ["C14"], ["C14.unwrap", "C14.flow"],
+  E(SYNC, """        if len(result) == 0:
+            result = None
+        elif len(result) == 1:
+            result = result[0]
+
+        return True, result""", """        if len(result) == 1:
+            result = result[0]
+
+        return True, result or None"""))
